@@ -479,8 +479,19 @@ def perturb_axes(rng, hc, how):
     k = rng.randrange(len(axes))
     i = rng.randrange(len(axes[k]))
     v = q(axes[k][i])
+    if how in ("near", "mid"):
+        # prefer an edge that is exactly 0 (relative and absolute tolerance differ most there) / a large one for 'mid'
+        cands = [(kk, ii) for kk, ax in enumerate(axes) for ii, x in enumerate(ax)
+                 if (q(x) == 0 if how == "near" else abs(q(x)) >= 4)]
+        if cands and rng.random() < 0.7:
+            k, i = rng.choice(cands)
+            v = q(axes[k][i])
     if how == "far":
         nv = v + F(1, 8)
+    elif how == "mid":
+        # a relative change of 1/2048: inside a relative tolerance of 1/1024, outside an absolute one of 1/1024 for
+        # |v| >= 4 (a factor 2 on either side of the threshold)
+        nv = v * (1 + F(1, 2048)) if abs(v) >= 4 else v + F(1, 2048)
     else:
         nv = v * (1 + F(1, 2 ** 40)) if v != 0 else F(1, 2 ** 40)
     axes[k][i] = enc(nv)
@@ -522,9 +533,12 @@ def add_case(rng, shape):
     if r < 0.15:
         b = perturb_axes(rng, b, "far")
         rel = "far"
-    elif r < 0.25:
+    elif r < 0.22:
         b = perturb_axes(rng, b, "near")
         rel = "near"
+    elif r < 0.30:
+        b = perturb_axes(rng, b, "mid")
+        rel = "mid"
     elif r < 0.40:
         shape2 = rng.choice([s for s in SHAPES if s != tuple(shape)])
         b = gen_hist(rng, shape2)
@@ -533,6 +547,8 @@ def add_case(rng, shape):
         rel = "nothist"
     w = rng.choice(["1", "1", "-1", "2", "1/2", "0", "-3/4", "3"])
     tol = rng.choice([None, None, ["0", "0"], ["1/1024", "0"], ["0", "1/1024"]])
+    if rel == "mid":
+        tol = rng.choice([["1/1024", "0"], ["0", "1/1024"]])
     c = {"op": "add", "a": a, "b": b, "w": w, "wkind": rng.choice(["int", "float"]), "tol": tol, "rel": rel}
     r2 = rng.random()
     if rel == "same" and r2 < 0.3:
@@ -1853,7 +1869,7 @@ def _spec_requests(case):
         i = ref_integral(case["h"])
         if i != 0:
             return [{"op": "spec_map", "bins": case["h"]["bins"], "c": enc(q(case["other"]) / i)}]
-    if op == "add" and case["rel"] in ("same", "near") and case.get("exact", True):
+    if op == "add" and case["rel"] in ("same", "near", "mid") and case.get("exact", True):
         return [{"op": "spec_zip", "a": case["a"]["bins"], "b": case["b"]["bins"], "w": case["w"]}]
     if op == "h2g" and case["mode"] in ("left", "right", "middle"):
         return [{"op": "spec_points", "h": model_hist(case["h"]), "mode": case["mode"], "mv": case["mv"]}]
